@@ -454,6 +454,7 @@ class Executor:
         self.events = []       # deliberate stops etc (kind, pc)
         self.symbols = {}      # name -> (z3 const, kind info)
         self.max_unwind = max_unwind
+        self.hard_unwind = 1 << 20
         self.intrinsics = {}
         self.externs = {}
         self.stats = {'instrs': 0, 'calls': 0, 'merges': 0, 'feas': 0, 'funcs': set()}
@@ -537,11 +538,32 @@ class Executor:
         if p is None:
             self.oblige(st, 'nil', 'nil dereference', pos, bnot(g))
             return None
-        c = st.heap[p.obj]
-        tid = self.objtype.get(p.obj)
-        for comp in p.path:
-            tid = self.p.type_at(tid, (comp,)) if tid is not None else None
-            c = self.index_value(c, comp, tid)
+        return self.load_rec(st.heap[p.obj], p.path, 0, self.objtype.get(p.obj))
+
+    def load_rec(self, c, path, i, tid):
+        n = len(path)
+        while i < n:
+            comp = path[i]
+            if isinstance(c, BigArr):
+                return c.get(comp)
+            etid = self.p.type_at(tid, (comp,)) if tid is not None else None
+            if isinstance(comp, int):
+                if comp >= len(c):
+                    if len(c) == 0:
+                        return self.zero(etid) if etid is not None else 0
+                    comp = 0  # out of range: the failing obligation has been recorded, this path is dead
+                c = c[comp]
+                tid = etid
+                i += 1
+                continue
+            # symbolic index into a tuple: push the rest of the path inside the ite chain
+            m = len(c)
+            ftid = self.p.type_at(etid, path[i + 1:]) if etid is not None else None
+            res = self.load_rec(c[m - 1], path, i + 1, etid)
+            for j in range(m - 2, -1, -1):
+                v = self.load_rec(c[j], path, i + 1, etid)
+                res = merge_val(comp == z3.BitVecVal(j, comp.size()), v, res, self.p, ftid)
+            return res
         return c
 
     def index_value(self, c, comp, etid=None):
@@ -582,6 +604,8 @@ class Executor:
             return c.set(comp, val)
         etid = self.p.type_at(tid, (comp,)) if tid is not None else None
         if isinstance(comp, int):
+            if comp >= len(c):
+                return c  # out of range: the failing obligation has been recorded, this path is dead
             new = self.store_rec(c[comp], path, i + 1, val, guard, etid)
             return c[:comp] + (new,) + c[comp + 1:]
         out = []
@@ -723,9 +747,20 @@ class Executor:
             b = key[1]
             blk = blocks[b]
             if b in fn.loops:
-                iters[b] = iters.get(b, 0) + 1
-                if iters[b] > self.max_unwind:
-                    raise UnwindError('%s block %d exceeds unwind %d' % (fn.name, b, self.max_unwind))
+                # the unwinding bound applies to iterations reached through symbolic branches; loops whose
+                # trip count is concrete (path condition did not grow since loop entry) only have a hard cap
+                pclen = max(len(it[0].pc) for it in items)
+                ent = iters.get(b)
+                if ent is None:
+                    ent = iters[b] = [pclen, 0, 0]
+                if pclen > ent[0]:
+                    ent[1] += 1
+                    if ent[1] > self.max_unwind:
+                        raise UnwindError('%s block %d exceeds unwind %d' % (fn.name, b, self.max_unwind))
+                else:
+                    ent[2] += 1
+                    if ent[2] > self.hard_unwind:
+                        raise UnwindError('%s block %d exceeds hard cap %d' % (fn.name, b, self.hard_unwind))
             # phis
             instrs = blk['instrs']
             nphi = 0
